@@ -106,6 +106,17 @@ func c15Handle(raw json.RawMessage) any {
 			fm.Stop()  // waits for maintenance and for the deletions it started
 			vos.Mark("retention-done")
 			res.After = c15List(fm)
+		case st == "reopen:skipsort", st == "reopen:sort":
+			// the store is restarted with the other valid sorted-docs setting: fractions sealed under the previous
+			// setting stay on disk and are served and deleted by a process configured differently
+			cfg2 := *cfg
+			cfg2.Fraction.SkipSortDocs = st == "reopen:skipsort"
+			cfg = &cfg2
+			fm = fracmanager.NewFracManager(cfg)
+			if err := fm.Load(context.Background()); err != nil {
+				res.LoadErr = err.Error()
+				return res
+			}
 		case strings.HasPrefix(st, "suicide:"):
 			fmt.Sscanf(st, "suicide:%d", &arg)
 			fr := fm.GetAllFracs()
@@ -385,6 +396,9 @@ func TestVerifC15(t *testing.T) {
 		{"ingest:1", "seal", "ingest:2", "suicide:1", "suicide:0"},           // deletion of a never-sealed and of a sealed fraction
 		{"ingest:1", "ingest:2", "seal", "ingest:3", "seal", "retention:3"}, // nothing to remove; cache rewrite only
 		{"ingest:1", "seal", "ingest:2", "retention:1"},
+		// a fraction sealed with sorted docs is deleted by a process running with SkipSortDocs, and the reverse
+		{"ingest:1", "seal", "reopen:skipsort", "ingest:2", "seal", "ingest:3", "retention:2"},
+		{"reopen:skipsort", "ingest:1", "seal", "reopen:sort", "ingest:2", "seal", "ingest:3", "retention:2"},
 	}
 	if r.Thorough() {
 		scripts = append(scripts,
